@@ -652,6 +652,8 @@ class AstToCfg(ast.NodeVisitor):
     self.cfgs = {}
 
     self.lexical_scopes = []
+    # Try statements whose handlers are currently being visited.
+    self.in_handlers_of = set()
 
   def _enter_lexical_scope(self, node):
     self.lexical_scopes.append(node)
@@ -672,7 +674,8 @@ class AstToCfg(ast.NodeVisitor):
   def _get_enclosing_except_scopes(self, stop_at):
     included = []
     for node in reversed(self.lexical_scopes):
-      if isinstance(node, ast.Try) and node.handlers:
+      if (isinstance(node, ast.Try) and node.handlers and
+          node not in self.in_handlers_of):
         included.extend(node.handlers)
       if isinstance(node, stop_at):
         break
@@ -935,9 +938,11 @@ class AstToCfg(ast.NodeVisitor):
       self.builder.new_cond_branch(block_representative)
       self.builder.exit_cond_section(block_representative)
 
-    self._exit_lexical_scope(node)
-
     if node.handlers:
+      # Jumps inside a handler still traverse this statement's finally block,
+      # so the handlers stay inside its lexical scope; but an exception raised
+      # in a handler is not caught by the handlers of the same statement.
+      self.in_handlers_of.add(node)
       # Using node would be inconsistent. Using the first handler node is also
       # inconsistent, but less so.
       block_representative = node.handlers[0]
@@ -947,6 +952,9 @@ class AstToCfg(ast.NodeVisitor):
         self.visit(block)
       self.builder.new_cond_branch(block_representative)
       self.builder.exit_cond_section(block_representative)
+      self.in_handlers_of.discard(node)
+
+    self._exit_lexical_scope(node)
 
     if node.finalbody:
       self.builder.enter_finally_section(node)
